@@ -36,6 +36,9 @@ func c15Rules(dir, file string) []c15Rule {
 		{"int", "int", "1.5", "15"}, {"ints", "ints", "1,a", "1,2"}, {"float", "float", "1", "1.5"},
 		{"re", "re='^a+$'", "b", "aa"}, {"ip", "ip", "1.2.3", "1.2.3.4"}, {"ipv4", "ipv4", "::1", "1.2.3.4"}, {"ipv6", "ipv6", "1.2.3.4", "::1"},
 		{"unique", "unique", "a,a", "a,b"}, {"json", "json", "{", "{}"}, {"prefix", "prefix=ab", "xab", "abx"}, {"suffix", "suffix=ab", "abx", "xab"},
+		// CJK (and byte-alias) characters in the rule VALUE: the label must follow the message alone
+		{"in", "in=(男/女)", "x", "男"}, {"include", "include=(篮球/足球)", "x", "打篮球"}, {"prefix", "prefix=成都", "x成都", "成都x"}, {"suffix", "suffix=路", "路x", "x路"},
+		{"re", "re='^测+$'", "b", "测测"}, {"ints", "ints=和", "1和a", "1和2"}, {"in", "in=(大/ħ)", "x", "大"}, {"include", "include=('必,须'/z)", "x", "a必,须"},
 		{"file", "file", dir, file}, {"dir", "dir", file, dir},
 		{"file", "file", filepath.Join(dir, "missing"), file}, {"dir", "dir", filepath.Join(dir, "missing"), dir},
 	}
@@ -46,7 +49,7 @@ var c15Msgs = []string{"must be ok", "必须正确", "age 必须 ok", "x", "必"
 func init() {
 	core.Register(&core.Prop{
 		ID: "C15",
-		Rule: "(A) every message-capable rule (32 keys, 36 rule/value rows) x 10 messages (ASCII, CJK, mixed, one rune, with = | and quoted comma) and no message x failing / passing value x carriers {struct tag, struct RM, Var, map, url}: the clause must show label(msg)+' '+msg verbatim instead of default wording; without message an explain:-labelled non-empty default text; " +
+		Rule: "(A) every message-capable rule (32 keys, 44 rule/value rows incl. CJK rule values) x 10 messages (ASCII, CJK, mixed, one rune, with = | and quoted comma) and no message x failing / passing value x carriers {struct tag, struct RM, Var, map, url}: the clause must show label(msg)+' '+msg verbatim instead of default wording; without message an explain:-labelled non-empty default text; " +
 			"(B) GetOnlyExplainErr applied to real library errors of 1..8 clauses in every order pattern (k<=4 exhaustively, k<=8 random) over {Chinese-labelled, English default, English custom, unknown-rule (unlabelled), rule-writing error (unlabelled)} plus trailing group clauses. distinct = distinct error text fed to the extractor / distinct (rule,msg,carrier,fail) tuple; non-trivial = error with >=1 clause",
 		Shards: func(t core.Tier) int { return 8 },
 		Run:    runC15,
